@@ -25,7 +25,7 @@ CHECKS = {
             "Trusted: the set-level restatement of the actor's gating (will_apply filter, timestamp-sorted batches, docs fetched at apply time). Timely histories only, enforced and re-validated.",
             "DESIGN.md section 10 C08"),
     "C09": ("E0", "exploration",
-            "One real HLCTimestamp under an injected wall clock (stall, backwards/forwards jumps) interleaved with send/recv of adversarially placed remote stamps; every clause of the statement is an invariant checked per step.",
+            "One real HLCTimestamp under an injected wall clock (stall, backwards/forwards jumps) interleaved with send/recv of adversarially placed remote stamps; every clause of the statement is an invariant checked per step, and every refusal must have its cause (a remote stamp within the permitted drift has to be accepted).",
             "Trusted: hook H1 converts the injected clock exactly like the real one. Pre-epoch wall clocks not generated.",
             "DESIGN.md section 10 C09"),
     "C02": ("E1", "exploration",
@@ -37,7 +37,7 @@ CHECKS = {
             "Trusted: SimStorage durability model (applied write = durable). Crash points inside a storage call are on the simulated store only; real-backend torn writes below SQLite/LMDB are out of scope; peer convergence after restart is C01.",
             "DESIGN.md section 10 C07"),
     "C11": ("E1", "exploration",
-            "The real Clock actor with 2-8 concurrent callers under seeded virtual delays and wall-clock jumps; history (invoke/return sequence numbers) checked for distinctness, per-task monotonicity, real-time order and causality with registered remote stamps; registration floods (up to 3 000 queued registrations before a get_time). One case in 1 999 starts a real node and checks that the clock it hands out is the one its store stamps writes with.",
+            "The real Clock actor with 2-8 concurrent callers under seeded virtual delays and wall-clock jumps; history (invoke/return sequence numbers) checked for distinctness, per-task monotonicity, real-time order and causality with registered remote stamps; registration floods (up to 3 000 queued registrations before a get_time). One case in ten drives the counter across the actor's back-pressure limit (65 525) without exhausting it. One case in 1 999 starts a real node and checks that the clock it hands out is the one its store stamps writes with.",
             "One OS thread: channel orders are sampled, real parallel schedules are not. Counter exhaustion and drift refusals are excluded by the generator (C09 covers them at the HLC level).",
             "DESIGN.md section 10 C11"),
     "C15": ("E1", "exploration",
